@@ -263,7 +263,7 @@ func (r *Run) checkArms(ld *Loaded, encs []Encoding, comps func(e Encoding) map[
 	}
 	r.Notes["contract_applications"] = applied
 	r.Notes["inlined_calls"] = inlined
-	if len(retry) > 0 && applied > 0 {
+	if len(retry) > 0 && applied > 0 && !r.aborted {
 		// call rule 2: re-verify against the callees' bodies
 		for _, o := range run(false, retry) {
 			if o.Status == "discharged" {
